@@ -155,13 +155,13 @@ Theorem C07_cache_coherent_refuted_aliased_cond :
 Proof. exact aliased_cond_refuted. Qed.
 Print Assumptions C07_cache_coherent_refuted_aliased_cond.
 
-(* Field._pos_equal with np.allclose (before bd353ac): a position change below the tolerance keeps the stored results *)
+(* Field._pos_equal with np.allclose (before 1925c43): a position change below the tolerance keeps the stored results *)
 Theorem C07_cache_coherent_refuted_allclose_pos :
   stale allclose_pos 7 [Call (Some (mkPos 0 0 0, false)) None true 0 0] (Call (Some (mkPos 0 1 0, false)) None true 0 0).
 Proof. exact allclose_pos_refuted. Qed.
 Print Assumptions C07_cache_coherent_refuted_allclose_pos.
 
-(* reuse test ignoring the external drift given with the call (before fb09c72) *)
+(* reuse test ignoring the external drift given with the call (before 51cde63) *)
 Theorem C07_cache_coherent_refuted_no_ext_token :
   stale no_ext_token 7 [Call (Some (mkPos 0 0 0, false)) None true 0 1] (Call None None true 0 2).
 Proof. exact no_ext_token_refuted. Qed.
